@@ -145,9 +145,9 @@ def compute_branch_distance_fitness_is_covered(
 
     # Check if all predicates are covered
     for predicate in subject_properties.existing_predicates:
-        if predicate not in exclude_true and (predicate, 0.0) not in trace.true_distances:
+        if predicate not in exclude_true and (predicate, 0.0) not in trace.true_distances.items():
             return False
-        if predicate not in exclude_false and (predicate, 0.0) not in trace.false_distances:
+        if predicate not in exclude_false and (predicate, 0.0) not in trace.false_distances.items():
             return False
     return True
 
